@@ -297,6 +297,12 @@ impl<'c, 's> Run<'c, 's> {
         let (off, end) = self.stage(ni, b, true);
         let d = real::decode(&self.nodes[ni].ctx, &self.nodes[ni].rxbuf[off..end]);
         self.st.lib_calls += 1;
+        if pec_ok(b) {
+            let node = &mut self.nodes[ni];
+            node.twin_rx[off..end].copy_from_slice(&b[..end - off]);
+            let dt = real::decode(&node.twin, &node.twin_rx[off..end]);
+            self.twin_compare(ni, "decode_packet", d.show(), dt.show(), b);
+        }
         if self.tracing() {
             self.tr(format!("   node{} decode_packet({} bytes) -> {}", ni, b.len(), d.show()));
         }
@@ -373,6 +379,28 @@ impl<'c, 's> Run<'c, 's> {
         self.st.lib_calls += 2;
         if self.tracing() {
             self.tr(format!("   node{} decode_packet -> {} ; process_packet -> {} response={:?}", ni, d.show(), p.show(), rlen));
+        }
+        if pec_ok(&b) {
+            // the twin gets the same calls in the same order
+            let (pt, rt, same_resp) = {
+                let node = &mut self.nodes[ni];
+                node.twin_rx[off..end].copy_from_slice(&b[..end - off]);
+                if mode == 0 {
+                    let _ = real::decode(&node.twin, &node.twin_rx[off..end]);
+                }
+                let (pt, rt) = real::process(&node.twin, &node.twin_rx[off..end], &mut node.twin_resp);
+                if mode == 1 {
+                    let _ = real::decode(&node.twin, &node.twin_rx[off..end]);
+                }
+                let same = match (rlen, rt) {
+                    (Some(a), Some(bb)) if a == bb && a <= node.resp.len() && a <= node.twin_resp.len() => node.resp[..a] == node.twin_resp[..a],
+                    (None, None) => true,
+                    _ => false,
+                };
+                (pt, rt, same)
+            };
+            let shown = |l: Option<usize>, ok: bool| format!("response={:?}{}", l, if ok { "" } else { " (bytes differ)" });
+            self.twin_compare(ni, "process_packet", format!("{} {}", p.show(), shown(rlen, true)), format!("{} {}", pt.show(), shown(rt, same_resp)), &b);
         }
         self.dg.u64(rlen.map(|l| l as u64 + 1).unwrap_or(0));
         self.dg.byte(d.is_ok() as u8);
